@@ -44,6 +44,8 @@ func c10Values() []interface{} {
 		bson.A{bson.A{int32(1)}}, bson.A{bson.A{int32(1), int32(2)}, bson.A{int32(3)}},
 		D(E("b", bson.A{})), bson.A{D(E("b", bson.A{}))}, bson.A{D(E("b", nil))}, bson.A{int32(0), int32(10)},
 		bson.A{D(E("b", bson.A{int32(0), int32(5)})), D(E("b", bson.A{int32(2)}))}, bson.A{D(E("b", bson.A{int32(0), int32(5)}))},
+		// the elements of an $all spread over the arrays of several embedded documents
+		bson.A{D(E("b", bson.A{int32(1)})), D(E("b", bson.A{int32(2), int32(7)}))},
 		// negative and wide numbers of every numeric type (sign extension in the $bits family, $mod of negatives)
 		int32(-1), int32(-6), int64(-5), -3.0, int64(1<<35 | 2), bson.A{int32(-2), D(E("b", int32(-1)))},
 		// decimal128 values next to doubles that only look equal (9.99 as a double is not 9.99)
